@@ -24,6 +24,13 @@ def gen_case(seed, idx):
     header, dump = objgen.render_objlib(model, rng)
     header += '#define FOO_LIMIT 10\nvoid foo_free_standing (gint x);\nFooRec *foo_free_make (void);\nvoid foo_rec_frob (FooRec *self);\nFooRec *foo_rec_new (void);\n'
     header += c03.role_decls(model)
+    # registered flags and enumeration types with several functions of their own, declared in non-alphabetical order
+    header += ('typedef enum {\n  FOO_OPTS_A = 1,\n  FOO_OPTS_B = 2\n} FooOpts;\nGType foo_opts_get_type (void);\nconst gchar *foo_opts_to_string (FooOpts v);\n'
+               'FooOpts foo_opts_from_string (const gchar *s);\nguint foo_opts_mask (void);\n'
+               'typedef enum {\n  FOO_LEVEL_LOW,\n  FOO_LEVEL_HIGH\n} FooLevel;\nGType foo_level_get_type (void);\nconst gchar *foo_level_to_string (FooLevel v);\n'
+               'FooLevel foo_level_from_string (const gchar *s);\ngint foo_level_count (void);\n')
+    dump = dump.replace('</dump>', '  <flags name="FooOpts" get-type="foo_opts_get_type">\n    <member name="FOO_OPTS_A" nick="a" value="1"/>\n    <member name="FOO_OPTS_B" nick="b" value="2"/>\n  </flags>\n'
+                        '  <enum name="FooLevel" get-type="foo_level_get_type">\n    <member name="FOO_LEVEL_LOW" nick="low" value="0"/>\n    <member name="FOO_LEVEL_HIGH" nick="high" value="1"/>\n  </enum>\n</dump>')
     # one structure tag with two typedefs, declared before the structure is defined
     header += 'typedef struct _FooTwinned FooTwinned;\ntypedef struct _FooTwinned FooTwinnedAlias;\nstruct _FooTwinned {\n  gint x;\n  gdouble y;\n};\n'
     targets = c03.targets_of(model, header)
